@@ -128,6 +128,8 @@ type concretiser struct {
 	m    map[string]string
 	used map[string]bool
 	r    *rng
+	// kinds other rules of the case use as they are; the image of GET stays clear of them
+	avoid map[string]bool
 }
 
 func newConcretiser(r *rng) *concretiser {
@@ -192,7 +194,12 @@ func (c *concretiser) kind(k string) string {
 	if v, ok := c.m["kind:GET"]; ok {
 		return v
 	}
+	// the image must stay distinct from the other kinds of the case: two rules the specification keeps apart by
+	// kind would otherwise become a re-declaration or a conflict, which Router.tla deliberately does not explore
 	v := []string{"GET", "GET", "PUT", "DELETE", "PATCH", "POST", "LIST"}[c.r.Intn(7)]
+	if c.avoid[v] {
+		v = "GET"
+	}
 	c.m["kind:GET"] = v
 	return v
 }
@@ -563,6 +570,12 @@ func mkTok(sep, seg string) ATok {
 func runRouterCase(c RCase, seed int64) ([]interface{}, map[string]interface{}) {
 	r := newRng(seed, c.ID)
 	cz := newConcretiser(r)
+	cz.avoid = map[string]bool{}
+	for i := range c.Rules {
+		if c.Rules[i].Kind != "GET" {
+			cz.avoid[c.Rules[i].Kind] = true
+		}
+	}
 	rules := make([]ARule, len(c.Rules))
 	for i := range c.Rules {
 		rules[i] = cz.rule(c.Rules[i])
